@@ -831,6 +831,22 @@ func RandomScript(rng *rand.Rand, mode string) tf.Script {
 			steps = append(steps, tf.M{"e": "SetPrice", "s": sg, "p": randPrice(rng)})
 		}
 	}
+	// band sweep: every script prices s1, s2 and the 32-byte id inside three different binary bands [2^k, 2^(k+1))
+	// (random mantissa) and asks for one tick-encoded signature over them, so that a run of a few hundred scripts
+	// covers every band of the tick conversion several times (each band is its own case in PriceToTick)
+	if rng.Intn(4) != 0 {
+		k0 := rng.Intn(64)
+		for j, sg := range []string{"s1", "s2", strings.Repeat("S", 32)} {
+			k := uint((k0 + 21*j) % 64)
+			v := uint64(1) << k
+			if k > 0 {
+				v += rng.Uint64() & (v - 1)
+			}
+			steps = append(steps, tf.M{"e": "SetPrice", "s": sg, "p": tf.M{"lit": strconv.FormatUint(v, 10)}})
+		}
+		steps = append(steps, tf.M{"e": "Request", "who": 0, "memo": "", "kind": "feeds", "enc": "tick",
+			"sigs": []string{"s1", "s2", strings.Repeat("S", 32)}})
+	}
 	penc := func() string { return []string{"fixed", "tick", "tick"}[rng.Intn(3)] }
 	oenc := func() string { return []string{"proto", "full", "partial"}[rng.Intn(3)] }
 	n := 7 + rng.Intn(9)
